@@ -271,3 +271,93 @@ Definition run_C12X (s : sexp) : sexp :=
   | Some ops => sList enc_out (xrun xinit ops)
   | None => sBad
   end.
+
+(* ================================================================== *)
+(* Third layer (entry run_C12N): a listener that DISPATCHES while it is being called.  The state is the
+   extended state plus one more table; a dispatch walks the list it took at its start and every callable
+   acts WHEN IT IS CALLED (registers, then dispatches), so that a dispatch made by a listener sees what
+   the listeners called before it have registered.  Python's recursion is bounded by the interpreter's
+   recursion limit; here by [fuel] (a dispatch that runs out of fuel calls nobody). *)
+Record nstate := {
+  n_x : xstate;
+  n_disp : list (N * N)             (* callable -> when called, dispatches this event (a new Event) *)
+}.
+Definition ninit : nstate := {| n_x := xinit; n_disp := [] |}.
+Definition with_x (s : nstate) (x : xstate) : nstate := {| n_x := x; n_disp := n_disp s |}.
+
+Inductive nop :=
+| NOp (o : xop)
+| NAddDispatcher (ev : N) (prio : Z) (ev2 : N) (stops : bool).   (* a new callable that dispatches ev2 when called *)
+
+(* the registration a callable makes when it is called *)
+Definition nregisters (x : xstate) (c : N) : xstate :=
+  match aget N.eqb c (x_regs x) with
+  | Some (e2, p2) => xnew x e2 p2 false None
+  | None => x
+  end.
+
+(* _do_dispatch over the list taken at the start; [rec] is "dispatch" as a called listener sees it *)
+Fixpoint nwalk (rec : nstate -> N -> nstate * list N) (s : nstate) (l : list N) : nstate * list N :=
+  match l with
+  | [] => (s, [])
+  | i :: r =>
+    let c := callable_of (x_call (n_x s)) i in
+    let stops := stops_of (n_x s) c in
+    let s1 := with_x s (nregisters (n_x s) c) in
+    let '(s2, inner) := match aget N.eqb c (n_disp s1) with
+                        | Some ev2 => rec s1 ev2
+                        | None => (s1, [])
+                        end in
+    if stops then (s2, c :: inner)
+    else let '(s3, rest) := nwalk rec s2 r in (s3, c :: inner ++ rest)
+  end.
+
+Fixpoint ndispatch (fuel : nat) (s : nstate) (ev : N) : nstate * list N :=
+  match fuel with
+  | O => (s, [])
+  | S f =>
+    let '(d', l) := get_listeners (x_d (n_x s)) ev in
+    nwalk (ndispatch f) (with_x s (with_d (n_x s) d')) l
+  end.
+
+Definition NFUEL : nat := 8.
+
+Definition nstep (s : nstate) (o : nop) : nstate * dout :=
+  match o with
+  | NAddDispatcher ev prio ev2 stops =>
+    ({| n_x := xnew (n_x s) ev prio stops None; n_disp := n_disp s ++ [(x_ncall (n_x s), ev2)] |}, ONone)
+  | NOp (XOp (Dispatch ev)) => let '(s', l) := ndispatch NFUEL s ev in (s', OCalled l)
+  | NOp (XAddAgain ev prio c) =>
+    (* the harness registers a dispatching callable again only for events BEFORE the one it dispatches (no cycles) *)
+    match aget N.eqb c (n_disp s) with
+    | Some t => if (ev <? t)%N then (with_x s (fst (xstep (n_x s) (XAddAgain ev prio c))), ONone) else (s, ONone)
+    | None => (with_x s (fst (xstep (n_x s) (XAddAgain ev prio c))), ONone)
+    end
+  | NOp o => let '(x', out) := xstep (n_x s) o in (with_x s x', out)
+  end.
+
+Fixpoint nrun (s : nstate) (ops : list nop) : list dout :=
+  match ops with
+  | [] => []
+  | o :: r => let '(s', out) := nstep s o in out :: nrun s' r
+  end.
+
+Definition dec_nop (s : sexp) : option nop :=
+  match s with
+  | L [A 10%Z; e; p; e2; b] =>
+    match dN e, dZ p, dN e2, dB b with
+    | Some e, Some p, Some e2, Some b => Some (NAddDispatcher e p e2 b) | _, _, _, _ => None end
+  | _ => option_map NOp (dec_xop s)
+  end.
+Definition run_C12N (s : sexp) : sexp :=
+  match dList dec_nop s with
+  | Some ops => sList enc_out (nrun ninit ops)
+  | None => sBad
+  end.
+(* the entry the harness drives: sequences without a dispatching listener go to run_C12X, as before *)
+Definition has_op10 (s : sexp) : bool :=
+  match s with
+  | L ops => existsb (fun o => match o with L (A 10%Z :: _) => true | _ => false end) ops
+  | _ => false
+  end.
+Definition run_C12XN (s : sexp) : sexp := if has_op10 s then run_C12N s else run_C12X s.
